@@ -5,16 +5,91 @@ fn hex(s: &str) -> Vec<u8> {
     (0..s.len() / 2).map(|i| u8::from_str_radix(&s[2 * i..2 * i + 2], 16).unwrap()).collect()
 }
 
-/// C15: arg = comma-separated hex packets, fed in order to one ChannelHandler.
+/// C15: arg = comma-separated hex packets, fed in order to one ChannelHandler.  No panic (the caller catches it), and a message
+/// that is delivered holds exactly as many bytes as its initialisation packet announced, never more than the input supplied
+/// (memory in proportion to the input).
 pub fn packets_no_panic(arg: &str) -> (bool, String) {
     let mut h = ChannelHandler::default();
     let mut delivered = 0;
+    let mut fed = 0usize;
+    let mut announced: std::collections::HashMap<u32, usize> = Default::default();
+    // what an in-order stream carries: 57 payload bytes of the initialisation packet, 59 of each continuation packet (a packet is 64
+    // bytes; anything beyond is not part of it), cut at the announced length; (expected bytes, next sequence number, still in order)
+    let mut expect: std::collections::HashMap<u32, (Vec<u8>, u8, bool)> = Default::default();
     for p in arg.split(',') {
-        if h.handle_packet(&hex(p)).is_some() {
+        let bytes = hex(p);
+        fed += bytes.len();
+        if bytes.len() >= 7 && bytes[4] & 0x80 != 0 {
+            let ch = u32::from_ne_bytes([bytes[0], bytes[1], bytes[2], bytes[3]]);
+            let n = (bytes[5] as usize) << 8 | bytes[6] as usize;
+            announced.insert(ch, n);
+            let take = bytes.len().min(64).saturating_sub(7).min(n);
+            expect.insert(ch, (bytes[7..7 + take].to_vec(), 0, true));
+        } else if bytes.len() >= 5 {
+            let ch = u32::from_ne_bytes([bytes[0], bytes[1], bytes[2], bytes[3]]);
+            if let (Some(e), Some(n)) = (expect.get_mut(&ch), announced.get(&ch)) {
+                if bytes[4] == e.1 && e.2 {
+                    let room = n.saturating_sub(e.0.len());
+                    let take = bytes.len().min(64).saturating_sub(5).min(room);
+                    e.0.extend_from_slice(&bytes[5..5 + take]);
+                    e.1 = e.1.wrapping_add(1);
+                } else { e.2 = false; }
+            }
+        }
+        if let Some(m) = h.handle_packet(&bytes) {
             delivered += 1;
+            if let Some(n) = announced.get(&m.channel) {
+                if m.payload.len() != *n { return (true, format!("a message of {} bytes was delivered, its initialisation packet announced {n}", m.payload.len())); }
+            }
+            if let Some((exp, _, true)) = expect.get(&m.channel) {
+                if *exp != m.payload {
+                    let at = exp.iter().zip(m.payload.iter()).position(|(a, b)| a != b).unwrap_or(exp.len().min(m.payload.len()));
+                    return (true, format!("the delivered message ({} bytes) is not the payload bytes of the 64-byte packets received so far ({} bytes): they differ at byte {at} (bytes beyond a packet's 64 were taken, or the message was delivered on the wrong packet)", m.payload.len(), exp.len()));
+                }
+            }
+            if m.payload.len() > fed { return (true, format!("a message of {} bytes from {fed} bytes of input", m.payload.len())); }
         }
     }
     (false, format!("{delivered} message(s) delivered"))
+}
+
+/// C16: "Packets of different channels may be interleaved in any order (each channel's own order kept) without affecting any
+/// channel's message".  arg is ignored: for every command on the second channel (one packet and two packets) and every position at
+/// which its packets can be slipped into a three-packet message of the first channel, both messages must arrive intact.
+pub fn interleave(_arg: &str) -> (bool, String) {
+    let pay_a: Vec<u8> = (0..150u32).map(|k| (1 + k * 7 % 250) as u8).collect();
+    let mut n = 0;
+    for cmdb in 0u8..0x80 {
+        let Some(cmd_b) = cmd_of(cmdb) else { continue };
+        for len_b in [5usize, 80] {
+            let pay_b: Vec<u8> = (0..len_b as u32).map(|k| (3 + k * 11 % 240) as u8).collect();
+            let (Ok(ma), Ok(mb)) = (Message::new(0x0a0b0c0d, cmd_of(0x10).unwrap(), &pay_a), Message::new(0x01020304, cmd_b, &pay_b)) else { continue };
+            let (mut oa, mut ob) = (Vec::new(), Vec::new());
+            if ma.send(&mut oa).is_err() || mb.send(&mut ob).is_err() { return (true, "send failed".into()); }
+            let pa: Vec<&[u8]> = oa.chunks(64).collect();
+            let pb: Vec<&[u8]> = ob.chunks(64).collect();
+            // every merge of the two packet sequences that keeps each one's order
+            let total = pa.len() + pb.len();
+            for mask in 0u32..(1 << total) {
+                if mask.count_ones() as usize != pb.len() { continue; }
+                n += 1;
+                let mut h = ChannelHandler::default();
+                let (mut ia, mut ib) = (0, 0);
+                let (mut got_a, mut got_b) = (None, None);
+                for pos in 0..total {
+                    let from_b = mask & (1 << pos) != 0;
+                    let pkt = if from_b { ib += 1; pb[ib - 1] } else { ia += 1; pa[ia - 1] };
+                    if let Some(m) = h.handle_packet(pkt) {
+                        if m.channel == 0x0a0b0c0d { got_a = Some(m) } else { got_b = Some(m) }
+                    }
+                }
+                let ctx = format!("command {cmdb:#04x} ({len_b} bytes) on the second channel, interleaving {mask:#b}");
+                match got_a { Some(m) if m.payload == pay_a => {}, Some(_) => return (true, format!("{ctx}: the first channel's message arrived changed")), None => return (true, format!("{ctx}: the first channel's message was lost")) }
+                match got_b { Some(m) if m.payload == pay_b => {}, Some(_) => return (true, format!("{ctx}: the second channel's message arrived changed")), None => return (true, format!("{ctx}: the second channel's message was lost")) }
+            }
+        }
+    }
+    (false, format!("{n} interleavings of two channels deliver both messages intact"))
 }
 
 fn cmd_of(b: u8) -> Option<Command> {
